@@ -68,10 +68,10 @@ fn main() {
         j["extra"] = json!({ "cross_process_hashes_compared": 300, "cross_process_equal": a == b && a == here && !a.is_empty() });
         if !(a == b && a == here && !a.is_empty()) { j["failures"].as_array_mut().unwrap().push(json!({ "kind": "oracle", "clause": "hash-reproducible-across-processes", "detail": "hash values of the same trees differ between processes/threads", "known": null, "case": {"requests": []} })); }
       }
-      if id == "C07" {
+      if id == "C07" || id == "C14" || id == "C20" {
         // views of a ReplaceSource that is mutated between observations (size / buffer / rope / to_writer against source() at every
         // observation point of the histories of C05)
-        let r2 = simple::run_simple("C07", &replhist::gen, &[], &cfg);
+        let r2 = simple::run_simple(&id, &replhist::gen, &[], &cfg);
         for k in ["cases", "impl_panics", "oracle_failures", "unknown_oracle_failures", "corr_failures", "model_oracle_failures", "driver_lines"] { j[k] = json!(j[k].as_u64().unwrap_or(0) + r2[k].as_u64().unwrap_or(0)); }
         j["distinct_nontrivial"] = json!(j["distinct_nontrivial"].as_u64().unwrap_or(0) + r2["distinct_nontrivial"].as_u64().unwrap_or(0));
         for f in r2["failures"].as_array().unwrap() { j["failures"].as_array_mut().unwrap().push(f.clone()); }
